@@ -98,6 +98,9 @@ FmType(t)         == [op |-> "type", t |-> t]
 FmPart(pt, kd, pat) == [op |-> "part", part |-> pt, kind |-> kd, pat |-> pat]   \* kind: "glob" | "re" (= the literal)
 FmName(n)         == FmPart("name", "glob", <<n>>)
 FmPath(rel)       == [op |-> "path", rel |-> rel]
+\* path GLOB-PATTERN with a pattern of several components, written D/g1/../gn: the LAST n + 1 components of the path
+\* match it component by component - a wildcard never matches the separator
+FmPathG(pat)      == [op |-> "pathg", pat |-> pat]
 FmContents(tm)    == [op |-> "contents", tm |-> tm]
 FmDirContents(o, m) == [op |-> "dir-contents", opt |-> o, m |-> m]
 FmNot(a)          == [op |-> "not", a |-> a]
@@ -219,6 +222,8 @@ Ev(w, m, t, x) ==
            [] m.op = "part" -> LET s == PartOf(m.part, NameText(x[Len(x)]))
                                IN  B4(IF m.kind = "re" THEN s = m.pat ELSE Glob(m.pat, s))
            [] m.op = "path" -> B4(RelOf(D, x) = m.rel)
+           [] m.op = "pathg" -> LET r == RelOf(D, x)
+                                IN  B4(Len(r) = Len(m.pat) /\ \A i \in 1..Len(r) : Glob(m.pat[i], NameText(r[i])))
            [] m.op = "contents" -> IF IsRegLike(n) THEN EvalTM(m.tm, n.c) ELSE "H"
            [] m.op = "dir-contents" -> IF IsDirLike(n) THEN Ev("fs", m.m, t, Ctx(x, m.opt, <<>>, <<>>)) ELSE "H"
            [] m.op = "not" -> Not4(Ev("fm", m.a, t, x))
@@ -468,12 +473,14 @@ S3 == FmNot(FmType("dir"))
 S4 == FmAnd(FmType("dir"), FmDirContents(NonRec, FsEmpty)) \* empty directories
 S5 == FmOr(FmType("symlink"), FmName(2))
 S6 == FmAnd(FmType("file"), FmContents(TmEmpty))           \* empty regular files
+S7 == FmPathG(<< <<Star>>, <<Star>> >>)                     \* path D/*/*: what is exactly two levels down
+S8 == FmPathG(<< <<1, Star>> >>)                           \* path D/a*: direct entries whose name begins with a
 W(pr, se) == [pr |-> pr, se |-> se]
 WrapsBasic == << W(<<>>, <<>>), W(<<P1>>, <<>>), W(<<P2>>, <<>>), W(<<P3>>, <<>>), W(<<>>, <<S1>>),
-                 W(<<>>, <<S4>>), W(<<P1>>, <<S3>>), W(<<P1, P2>>, <<S1, S2>>) >>
+                 W(<<>>, <<S4>>), W(<<P1>>, <<S3>>), W(<<P1, P2>>, <<S1, S2>>), W(<<>>, <<S7>>) >>
 WrapsMore  == << W(<<P4>>, <<>>), W(<<>>, <<S2>>), W(<<>>, <<S3>>), W(<<>>, <<S5>>), W(<<>>, <<S6>>),
                  W(<<P2>>, <<S1>>), W(<<P3>>, <<S5>>), W(<<P4, P3>>, <<S3, S5>>), W(<<>>, <<S5, S3>>),
-                 W(<<P2, P1>>, <<>>) >>
+                 W(<<P2, P1>>, <<>>), W(<<>>, <<S7>>), W(<<>>, <<S8>>) >>
 Wraps == IF WrapLevel >= 2 THEN WrapsBasic \o WrapsMore ELSE WrapsBasic
 
 \* ---- trees read from a file (randomised tier): records [nodes: Seq([p, k]), opt: [rec, min, max], wi] ------
@@ -493,6 +500,8 @@ ExistsFms == << FmNone, FmType("file"), FmType("dir"), FmType("symlink"), FmCont
                 FmDirContents(Opt(TRUE, 1, -1), FsNot(FsEmpty)), FmName(1), FmNot(FmType("file")),
                 FmAnd(FmType("symlink"), FmType("dir")), FmOr(FmType("dir"), FmContents(TmEmpty)),
                 FmPath(<<1>>), FmPath(<<1, 1>>), FmConst(FALSE),
+                FmPathG(<< <<Star>> >>), FmPathG(<< <<Star>>, <<1>> >>), FmPathG(<< <<1, Star>> >>),
+                FmPathG(<< <<QMark>>, <<Star>> >>),
                 FmDirContents(RecAll, FsEvery(FmType("file"))), FmDirContents(RecAll, FsAny(FmContents(TmEmpty))) >>
 
 \* ---- names family ---------------------------------------------------------------------------
